@@ -40,7 +40,7 @@ def run_serial(cmd, cases, timeout):
     while pending:
         text = "".join("case %s\n%s\n" % (c["name"], "\n".join(c["lines"])) for c in pending)
         # budget: per-case timeout for the slowest case + a little for each other case
-        rc, out, err = run_prog(cmd, text, timeout + 0.5 * len(pending))
+        rc, out, err = run_prog(cmd, text, timeout + 0.25 * len(pending))
         got, order = split_cases(out)
         if rc == 0:
             outs.update(got)
